@@ -333,13 +333,13 @@ func (osObj *VirtualOS) MkdirTemp(dir, pattern string) (string, error) {
 	if osObj.tmp == "" {
 		return "", errors.New("no temporary directory")
 	}
-	mount, _, found := osObj.findMount(osObj.tmp)
+	mount, resolvedTmp, found := osObj.findMount(osObj.tmp)
 	if !found {
 		return "", fmt.Errorf("temporary directory not found: %s", osObj.tmp)
 	}
 	rint := rand.Int63()
 	dirName := fmt.Sprintf("%d-%s", rint, pattern)
-	if err := mount.Source.Mkdir(dirName, 0o755); err != nil {
+	if err := mount.Source.Mkdir(filepath.Join(resolvedTmp, dirName), 0o755); err != nil {
 		return "", err
 	}
 	return filepath.Join(osObj.tmp, dirName), nil
